@@ -59,6 +59,31 @@ CHECKS["C05"] = dict(
          "rollover-driven catalogue rewrites are represented by first-file creation and compaction",
     design_ref="5 C05")
 
+CHECKS["C01"] = dict(
+    engine="statemachine",
+    technique="TLA+ spec StateMachine.tla (reference apply semantics + snapshot/replay persistence; TLC: LiveIsFold, "
+              "SnapshotsExact, RestartExact), kind-first TLC simulation replayed on a mini node across real process "
+              "restarts, recorded random histories validated by TLC (Trace_StateMachine)",
+    text="TLC checks that snapshot + log-suffix replay reproduces the fold of the applied requests for every placement of "
+         "compactions, interrupted snapshot attempts and restarts (two named deviations - stale snapshot tail, non-atomic "
+         "capture - are negative controls). Generated behaviours are executed on the real node wiring: after every step "
+         "the served configs (content, md5, history), namespaces, users and sequence counters are compared with the spec, "
+         "and at every restart with the dump taken before the stop.",
+    note="clean stop only; compaction is not run concurrently with applies; MCP / persistent instances / cache are "
+         "not driven yet; trusts the dump (public query messages + one read-only hook for the sequence counters)",
+    design_ref="5 C01")
+CHECKS["C07"] = dict(
+    engine="statemachine",
+    technique="TLA+ spec StateMachine.tla (ApplyReq reference semantics), TLC-generated request sequences and batch "
+              "splits executed through leader apply, follower batch replication and start-up replay on mini nodes, dumps "
+              "compared pairwise and with the spec; recorded leader traces validated by TLC",
+    text="The decisive leg is conformance: the same committed sequence goes through FileStore::apply_entry_to_state_machine, "
+         "replicate_to_state_machine (TLC-chosen splits, one big batch, random batches up to 40) and process start-up "
+         "replay; all served-state dumps must be identical and equal to the spec's fold.",
+    note="request kinds: config set/remove, namespace, user table, sequence; ordering across different component "
+         "actors on the follower path is fire-and-forget and compared only after quiescence",
+    design_ref="5 C07")
+
 NOT_YET = {}
 
 
